@@ -400,15 +400,15 @@ O("C05.send_rrul.sets", "C05", "h_C05.c", "h_C05_send_rrul_sets",
 
 # ------------------------------------------------------------------ C01 / C17 / C13 manifest texts
 P("C01", level="other",
-  level_text="The full statement (expansion == RFC 5545 recurrence set for every rule) decomposes into calendar kernels, steppers, limiters, set builders, cut and the refill boundary (DESIGN 4, C01). Discharged on the real evrrul.c / bitint code for all inputs: every calendar kernel the fillers use equals the specification written from ISO 8601 / RFC 5545 (weekday, 28-year table, ISO weeks, n-th weekday of month and year incl. negative ordinals, ISO week to date incl. neighbouring years, day-of-year inversions, Easter), the BYxxx containers behave as sets with complete ordered iteration (C19), and the SECONDLY filler's stepping, filtering, DTSTART/UNTIL/COUNT cut and ordering (C09.Sly). The other fillers, the YEARLY/MONTHLY set builders, BYSETPOS and the composition into 'equals the RFC set' are not covered.",
-  level_note="Trusted: spec_cal.h as the calendar definition (self-tested against libc), CBMC semantics. Known finding KF-C01-ywd-prev-december. Not covered: rrul_fill_yly/mly/wly/dly/Hly/Mly as wholes, fill_yly_*/fill_mly_* builders, clr_poss (BYSETPOS), refill boundary / restart consistency, snarf_rrule, composition lemma L-C01.",
-  explanation="kernels, containers and one filler are proved for all inputs; the expansion as a whole is not reached by any discharged obligation",
-  not_covered=["YEARLY/MONTHLY/WEEKLY/DAILY/HOURLY/MINUTELY fillers as wholes", "set builders fill_yly_*/fill_mly_*, clr_poss (BYSETPOS), shift", "refill boundary (restart consistency, COUNT bookkeeping)", "composition lemma L-C01 (prose)", "snarf_rrule text parsing"])
+  level_text="The full statement (expansion == RFC 5545 recurrence set for every rule) decomposes into calendar kernels, set builders, steppers, limiters, cut and the refill boundary (DESIGN 4, C01). Discharged on the real evrrul.c / bitint code for all inputs: every calendar kernel the fillers use equals the specification written from ISO 8601 / RFC 5545 (weekday, 28-year table, ISO weeks, n-th weekday of month and year incl. negative and non-existent ordinals, ISO week to date, day-of-year inversions, Easter); the set builders of the YEARLY/MONTHLY fillers, one rule value at a time: BYYEARDAY (fill_yly_yd), BYDAY=nXX in a year / a month (fill_yly_ycw, fill_mly_ymcw), BYWEEKNO+BYDAY (fill_yly_ywd), BYMONTHDAY (fill_mly_ymd, fill_yly_ymd_all_m), plain BYDAY lists (fill_mly_ymd_all_d, fill_yly_yd_all), BYEASTER (C17.eastr) select exactly the days RFC 5545 names, and nothing for days / weeks / ordinals the period does not have; BYSETPOS on small sets (C01.clr_poss, bounded); the BYxxx containers behave as sets with complete ordered iteration (C19); the sub-daily fillers' stepping, filtering and DTSTART/UNTIL/COUNT cut (C09.*ly). The YEARLY/MONTHLY fillers' main loops and the composition into 'equals the RFC set' are not covered.",
+  level_note="Trusted: spec_cal.h as the calendar definition (self-tested against libc), CBMC semantics; in the set-builder obligations the +-383 container is replaced by its native one-value behaviour or a bitmap (real container: C19) and each builder is run on one rule value (its loop treats values independently - read, not proved). Known findings KF-C01-ywd-prev-december, KF-C01-ywd-outside-year. Not covered: rrul_fill_yly / rrul_fill_mly main loops (period stepping, tries, SHIFT year adjustment), fill_yly_md_all, refill boundary / restart consistency, composition lemma L-C01.",
+  explanation="kernels, containers, set builders and the sub-daily fillers are proved for all inputs; the expansion as a whole is not reached by any discharged obligation",
+  not_covered=["rrul_fill_yly / rrul_fill_mly main loops (period stepping, INTERVAL/BYMONTH congruence, SHIFT year adjustment): seeds C09-m1, C16-m3, C17-m3", "several values per BYxxx part interacting inside one builder call", "refill boundary (restart consistency)", "composition lemma L-C01 (prose)"])
 P("C17", level="other",
-  level_text="BYEASTER rests on easter_get_yday, proved equal to the anonymous Gregorian computus (Meeus/Jones/Butcher) for every year 1901..2099 together with the day-of-year inversions it is combined with (C01.k.yd_to_md). The SHIFT semantics (shift(), day and business-day forms) and fill_yly_eastr's year-boundary handling are not covered by any obligation.",
-  level_note="Trusted: spec_cal.h computus (self-tested on known Easter dates at setup). Not covered: shift(), fill_yly_eastr, snarf_shift, the echs_shift_* decoders.",
-  explanation="the Easter clause is proved for all years; the SHIFT clauses are not covered",
-  not_covered=["shift(): calendar-day and business-day shifts, -0B, B+/B-", "fill_yly_eastr: N days from Easter across the year boundary", "snarf_shift text parsing"])
+  level_text="BYEASTER: easter_get_yday equals the anonymous Gregorian computus (Meeus/Jones/Butcher) for every year 1901..2099 (C17.easter), and fill_yly_eastr selects exactly the day N days from Easter Sunday for every N in -366..366 whenever that day lies inside the year (C17.eastr; outside the year: known finding KF-C17-easter-outside-year). SHIFT=N: shift() moves any date by exactly N calendar days and files it under the year it falls in (C17.shift.days.n31/.n92 quick, .n366 thorough; day-number spec). SHIFT=NB: from a business day the N-th business day after/before, from a weekend the adjacent business day in the direction of the shift then N or N-1 business days on, -0B back to Friday (C17.shift.bdays.n6: N = 0..6, both signs and direction flags).",
+  level_note="Trusted: spec_cal.h computus and day numbers (self-tested at setup); the +-383 container replaced by its native one-value behaviour (real container: C19), one candidate per call. Stated bound: business-day amounts 0..6 (larger N: no answer from any back end in 15 min); calendar-day amounts up to 92 in the quick tier. Not covered: snarf_shift text parsing, combined day+business-day shifts, the start-year adjustment for shifts in rrul_fill_yly (seed C17-m3).",
+  explanation="the Easter clause and the calendar-day SHIFT clause are proved for all stated inputs; the business-day clause for amounts up to 6; the fillers' use of them is not covered",
+  not_covered=["business-day shifts of more than 6 days", "snarf_shift text parsing, combined SHIFT=x,yB", "rrul_fill_yly's start-year adjustment for shifted rules (seed C17-m3)", "BYEASTER days falling into a neighbouring year (known finding)"])
 P("C13", not_applicable="executor output routing is kernel/process behaviour (pipes, splice/tee/sendfile, exec, signals, waitpid): no function contract within CBMC's reach can express 'every byte the job writes arrives exactly once'; proving a model of the kernel would be a different technique family (DESIGN.md section 7)")
 O("C16.refill", ["C16", "C01", "C05", "C09"], "h_C16.c", "h_C16_refill",
   "refill at the 64-occurrence boundary: 63 delivered and the 64th held back as the next seed (never lost, never twice), shorter batches end the stream, COUNT decreases by exactly the number delivered; for every FREQ and COUNT",
